@@ -49,8 +49,9 @@ type Config struct {
 	Hostile       bool   `json:"hostile,omitempty"`         // some plugin answers with hostile shapes
 	HostileSrc    bool   `json:"hostile_src,omitempty"`     // ... including sources (positions ambiguous)
 	// Healthy: no injected faults, every outcome tolerated: exact drain / liveness oracles apply.
-	Healthy bool `json:"healthy,omitempty"`
-	Gates   int  `json:"gates_pct,omitempty"` // percentage of gate sites armed
+	Healthy      bool `json:"healthy,omitempty"`
+	GatePermille int  `json:"gate_permille,omitempty"` // chance (per mille) that a channel/mutex operation of the engine parks at a gate
+	MaxGates     int  `json:"max_gates,omitempty"`     // gate parks per run
 }
 
 type SrcCfg struct {
@@ -144,6 +145,9 @@ func GenConfig(seed int64, family string) *Config {
 	}
 	c.Faults = map[string]int{}
 	genFamily(c, r)
+	// gates (drawn last: everything above is unchanged by them)
+	c.GatePermille = pick(r, 0, 0, 0, 0, 2, 10, 40)
+	c.MaxGates = pick(r, 3, 10, 40, 200)
 	return c
 }
 
